@@ -71,11 +71,15 @@ PROPS = {
         "level_note": "byte-level round trip (any trailing bytes), encoder totality, sorted keys, literal templates and the rejections are proved for the whole message space; invariance under key reordering/unknown keys is decided by the tie only so far (partial)",
     },
     "C14": {
-        "engines": [{"name": "codec", "quick": 40, "thorough": 1500, "oracle_tag": "C14", "op_filter": ["dec"]}],
+        "engines": [{"name": "codec", "quick": 40, "thorough": 1500, "oracle_tag": "C14", "op_filter": ["dec"]},
+                    # "a running node that receives any sequence of such datagrams keeps serving": real nodes
+                    # fed garbage, duplicated, unsolicited and racing datagrams; a node that stops answering
+                    # its API ([C15] oracle) or a query ([C05] oracle) afterwards violates C14 as well
+                    {"name": "node", "quick": 42, "thorough": 140, "oracle_tag": ["C14", "C15", "C05"]}],
         "constants": ["BENCODE_MAX_DEPTH", "RECV_BUFFER_LEN"],
         "trusted": COMMON_TRUST + ["Rust-level panic/abort/stack-overflow freedom is runtime behaviour observed by the supervised decoder child (2 MiB stack, RLIMIT_AS 3 GiB, allocation counter); no theorem covers it"],
         "assumptions": [],
-        "level_note": "PARTIAL: proved — decoder model total, every materialised string <= input length, pre-scan rejects over-long strings / nesting > 32 and accepts all well-formed values within the limit; not provable in Lean — that the Rust code does not panic/abort/overflow (tie only); the 'node keeps serving' clause is decided by the node engine once built",
+        "level_note": "PARTIAL: proved — decoder model total, every materialised string <= input length, pre-scan rejects over-long strings / nesting > 32 and accepts all well-formed values within the limit; not provable in Lean — that the Rust code does not panic/abort/overflow (tie only); the 'node keeps serving' clause is decided by the node engine (real nodes under garbage, duplicated, unsolicited and same-instant datagrams, in lockstep with the node model)",
     },
     "C02": {
         "engines": [{"name": "handler", "quick": 60, "thorough": 1500, "oracle_tag": "C02"}],
